@@ -219,6 +219,7 @@ func checkCmd(argv []string) int {
 	// call-graph frame conditions (forbids clauses)
 	forb := P.ForbidsObligations(hasTag)
 	forb = append(forb, P.NoWriteObligations(hasTag)...)
+	forb = append(forb, P.MayWriteObligations(hasTag)...)
 	if len(forb) > 0 {
 		frs = append(frs, &FuncResult{VC: NewVC(P.reg), Obls: forb})
 		for _, o := range forb {
